@@ -189,10 +189,6 @@ func IsValidMaps(m BlockMap, maps []BlockMap, previous BlockMap) error {
 		if err := IsValidManifests(m.Manifest(), previous.Manifest().Hash()); err != nil {
 			return e.Wrap(err)
 		}
-	case maps[index-1] != nil:
-		if err := IsValidManifests(m.Manifest(), maps[index-1].Manifest().Hash()); err != nil {
-			return e.Wrap(err)
-		}
 	}
 
 	// revive:disable-next-line:optimize-operands-order
